@@ -62,13 +62,13 @@ Theorem C07_graceful_close_after_reader_exit : forall sc, in_scope sc = true ->
 Proof. exact graceful_only_after_reader_exit. Qed.
 
 (* no goroutine outlives Close: in every reachable state in which no thread can move any more and
-   the Close calls have returned, the reader goroutine, the NETCONF read loop / in-flight caller
-   and the RPC waiter are at Exit — when the transport's blocked read returns (EOF or error) on
+   the Close calls have returned, the reader goroutine, the NETCONF read loop / in-flight caller,
+   the RPC waiter and sendRPC's polling goroutine are at Exit — when the transport's blocked read returns (EOF or error) on
    close ... *)
 Theorem C07_no_leak : forall sc, in_scope sc = true -> is_block (sc_tc sc) = false ->
   forall sched : sched, let s := exec (sys_of sc) sched in
     quiescent sc s -> closers_returned sc s = true ->
-    forall t, In t [T_READER; T_USER; T_RPC] -> exited_at (sys_of sc) s t = true.
+    forall t, In t [T_READER; T_USER; T_RPC; T_POLLER] -> exited_at (sys_of sc) s t = true.
 Proof. exact no_leak_unblocking. Qed.
 
 (* ... and that state stays reachable whatever has happened (AG EF all gone) *)
@@ -81,7 +81,7 @@ Proof. exact all_exit_reachable. Qed.
 Theorem C07_no_leak_blocking : forall sc, in_scope sc = true ->
   forall sched : sched, let s := exec (sys_of sc) sched in
     quiescent sc s -> closers_returned sc s = true ->
-    forall t, In t [T_READER; T_USER; T_RPC] -> thread_gone sc s t = true.
+    forall t, In t [T_READER; T_USER; T_RPC; T_POLLER] -> thread_gone sc s t = true.
 Proof. exact no_leak. Qed.
 
 (* ... and it necessarily does remain there (witness schedule) *)
@@ -107,35 +107,48 @@ Proof. exact race_free. Qed.
 Theorem C07_no_plain_access : forall sc, no_plain (sys_of sc) = true.
 Proof. exact fixed_no_plain. Qed.
 
-(* ---------- what the fixed code still violates ---------- *)
+(* the System transport (transport/system.go, current code): the field `fd` is loaded by
+   System.Read and assigned by System.Close, and the forced Transport.Close(true) runs System.Close
+   without implLock; the accesses are guarded by the mutex fdLock (getFd / setFd).  [system_sys]
+   keeps them as plain-access instructions inside Lock/Unlock: no reachable state co-enables two of
+   them, for one or two Close calls, graceful and forced, every transport-close behaviour — and
+   nothing panics, Close can always return, a returned Close has closed the file *)
+Theorem C07_system_race_free : forall second tc (sched : sched),
+  races (system_sys tc second) (exec (system_sys tc second) sched) = false /\
+  panic (exec (system_sys tc second) sched) = 0.
+Proof. exact system_race_free. Qed.
 
-(* sendRPC's polling goroutine can be left blocked forever on `done <- data` (reply found while
-   the waiter leaves through its timer or d.errs); in quiescent states it is either gone or there *)
-Theorem C07_rpc_poller_refuted :
-  goal_poller_stranded (exec (sys_of sc_rpc) w_poller_stranded) = true /\
-  goal_poller_stranded_noclose (exec (sys_of sc_rpc) w_poller_stranded_noclose) = true.
+Theorem C07_system_close_completes : forall second tc (sched : sched),
+  (exists sched', system_returned second tc (exec (system_sys tc second) (sched ++ sched')) = true) /\
+  (p_system_closed second (exec (system_sys tc second) sched) = true).
+Proof. exact system_close_completes. Qed.
+
+(* (not vacuous: the plain accesses are in the model) *)
+Theorem C07_system_has_plain_accesses : forall second tc, no_plain (system_sys tc second) = false.
+Proof. exact system_has_plain. Qed.
+
+(* ---------- the code before the repairs e29178e and 985cf8a: refuted ---------- *)
+
+(* before e29178e sendRPC's polling goroutine could be left blocked forever on `done <- data`
+   (reply found while the waiter leaves through its timer or d.errs); with and without a Close *)
+Theorem C07_prefix_poller_refuted :
+  goal_poller_stranded (exec (prefix_sys_of sc_rpc) w_poller_stranded) = true /\
+  goal_poller_stranded_noclose (exec (prefix_sys_of sc_rpc) w_poller_stranded_noclose) = true.
 Proof.
-  split; [exact rpc_poller_can_be_stranded|exact rpc_poller_can_be_stranded_without_close].
+  split; [exact prefix_rpc_poller_can_be_stranded
+         |exact prefix_rpc_poller_can_be_stranded_without_close].
 Qed.
 
-Theorem C07_rpc_poller_partial : forall sc, in_scope sc = true ->
-  sc_kind sc = NETCONF -> sc_user sc = true ->
-  forall sched : sched, let s := exec (sys_of sc) sched in
-    quiescent sc s -> closers_returned sc s = true ->
-    exited_at (sys_of sc) s T_POLLER = true \/ poller_stranded s = true.
-Proof. exact poller_gone_or_stranded. Qed.
-
-(* the System transport (transport/system.go): System.Close assigns the plain field `fd`, which
-   System.Read loads, and the forced Transport.Close(true) runs it without implLock: a data race
-   (witness); it is the only one and needs the forced path; nothing panics *)
-Theorem C07_system_fd_race_refuted : races sys_fd1 (exec sys_fd1 w_fd_race) = true.
-Proof. exact system_fd_race. Qed.
-
-Theorem C07_system_fd_race_partial : forall second tc (sched : sched),
-  let s := exec (system_sys tc second) sched in
-  panic s = 0 /\
-  (races (system_sys tc second) s = true -> pc_of s T_CLOSER1 = 8 \/ pc_of s T_CLOSER2 = 8).
-Proof. exact system_fd_race_only_forced. Qed.
+(* before 985cf8a System.Close assigned the plain field `fd` that System.Read loads, in the forced
+   path without any lock: a data race (witness); it was the only one and needed the forced path *)
+Theorem C07_prefix_system_fd_race :
+  races sys_fd1 (exec sys_fd1 w_fd_race) = true /\
+  forall second tc (sched : sched),
+    let s := exec (prefix_system_sys tc second) sched in
+    panic s = 0 /\
+    (races (prefix_system_sys tc second) s = true ->
+     pc_of s T_CLOSER1 = 8 \/ pc_of s T_CLOSER2 = 8).
+Proof. split; [exact prefix_system_fd_race|exact prefix_system_fd_race_only_forced]. Qed.
 
 (* ---------- the original code (cc33fde): refuted, with witness schedules ---------- *)
 
@@ -173,10 +186,11 @@ Print Assumptions C07_no_leak_blocking.
 Print Assumptions C07_reader_remains_if_read_stays_blocked.
 Print Assumptions C07_race_free.
 Print Assumptions C07_no_plain_access.
-Print Assumptions C07_rpc_poller_refuted.
-Print Assumptions C07_rpc_poller_partial.
-Print Assumptions C07_system_fd_race_refuted.
-Print Assumptions C07_system_fd_race_partial.
+Print Assumptions C07_system_race_free.
+Print Assumptions C07_system_close_completes.
+Print Assumptions C07_system_has_plain_accesses.
+Print Assumptions C07_prefix_poller_refuted.
+Print Assumptions C07_prefix_system_fd_race.
 Print Assumptions C07_old_refuted_second_close.
 Print Assumptions C07_old_refuted_send_on_closed.
 Print Assumptions C07_old_refuted_race.
@@ -199,7 +213,8 @@ Eval vm_compute in
    fold_left N.add (concat (concat count_table)) 0%N).
 
 Eval vm_compute in
-  map (fun b2 => map (fun tc => N.of_nat (length (system_reach b2 tc))) all_tcs) all_bools.
+  map (fun b2 => map (fun tc => (N.of_nat (length (system_reach b2 tc)),
+                                 N.of_nat (length (psystem_reach b2 tc)))) all_tcs) all_bools.
 
 (* the original code: (states, panic states, racy states, quiescent states with a thread left) *)
 Eval vm_compute in
@@ -209,8 +224,8 @@ Eval vm_compute in
 From Coq Require Import String.
 Open Scope string_scope.
 Eval vm_compute in show_sched (sys_of sc_blocked_stays) w_reader_remains.
-Eval vm_compute in show_sched (sys_of sc_rpc) w_poller_stranded.
-Eval vm_compute in show_sched (sys_of sc_rpc) w_poller_stranded_noclose.
+Eval vm_compute in show_sched (prefix_sys_of sc_rpc) w_poller_stranded.
+Eval vm_compute in show_sched (prefix_sys_of sc_rpc) w_poller_stranded_noclose.
 Eval vm_compute in show_sched sys_fd1 w_fd_race.
 Eval vm_compute in show_sched (old_sys_of osc_second) ow_second.
 Eval vm_compute in show_sched (old_sys_of osc_ioerr) ow_ioerr.
